@@ -125,7 +125,7 @@ fn check_frame(e: &mut Emu, m128: bool, shadow: bool, path: &str, ctx: &mut RunC
     ))
 }
 
-const PATHS: [&str; 10] = ["hook", "cpu_4000", "cpu_c000", "poke", "scr", "sna", "szx", "fastload", "poke_c000", "fastload_part"];
+const PATHS: [&str; 11] = ["hook", "cpu_4000", "cpu_c000", "poke", "scr", "sna", "szx", "fastload", "poke_c000", "fastload_part", "cpu_words"];
 
 impl Property for C08 {
     fn id(&self) -> &'static str {
@@ -138,7 +138,7 @@ impl Property for C08 {
         }
     }
     fn rule(&self) -> &'static str {
-        "kind 0: 6912-byte contents (random, single bits, per-third patterns, all-flash, no-flash) written through a seeded path (CPU LDIR via 0x4000, via 0xC000 with bank 5/7 paged, pokes via 0x4000 / 0xC000, SCR load, SNA load, SZX load, tape fast-load, raw bus writes), 128K screen bit toggled, then quiet frames compared pixel-exact with RefScreen; kind 1: flash run-lengths over 50..70 frames; kind 2: one byte written by the CPU at a T at least two lines before / after its beam position. distinct = (kind, path, machine, displayed bank, content style, third / beam side)"
+        "kind 0: 6912-byte contents (random, single bits, per-third patterns, all-flash, no-flash) written through a seeded path (CPU LDIR via 0x4000, via 0xC000 with bank 5/7 paged, CPU 16-bit stores and pushes at seeded offsets, partial tape fast-loads through either window, pokes via 0x4000 / 0xC000, SCR load, SNA load, SZX load, tape fast-load, raw bus writes), 128K screen bit toggled, then quiet frames compared pixel-exact with RefScreen; kind 1: flash run-lengths over 50..70 frames; kind 2: one byte written by the CPU at a T at least two lines before / after its beam position. distinct = (kind, path, machine, displayed bank, content style, third / beam side)"
     }
     fn state_measure(&self) -> &'static str {
         "distinct (machine, path, shadow, flash phase seen) combinations compared"
@@ -157,7 +157,7 @@ impl Property for C08 {
         ]
     }
     fn expected_probes(&self) -> Vec<&'static str> {
-        vec!["path_cpu_c000_bank7", "shadow_displayed", "flash_runs_checked", "beam_before", "beam_after", "path_poke", "path_sna", "path_szx", "path_scr", "path_fastload", "path_fastload_part", "path_fastload_c000", "beam_host_write", "beam_paging_write_same_frame"]
+        vec!["path_cpu_c000_bank7", "shadow_displayed", "flash_runs_checked", "beam_before", "beam_after", "path_poke", "path_sna", "path_szx", "path_scr", "path_fastload", "path_fastload_part", "path_fastload_c000", "path_cpu_words", "beam_host_write", "beam_paging_write_same_frame"]
     }
 
     fn gen(&self, rng: &mut Rng, tier: Tier, idx: u64) -> Scenario {
@@ -173,12 +173,12 @@ impl Property for C08 {
         sc.set("content_seed", (rng.next() >> 2) as i64);
         match kind {
             0 => {
-                let mut path = rng.range(0, 9);
+                let mut path = rng.range(0, 10);
                 if !m128 && (path == 2 || path == 8) {
                     path = 1;
                 }
                 sc.set("path", path);
-                sc.set("target7", (m128 && (path == 2 || path == 8 || path == 0 || path == 9) && rng.bool()) as i64);
+                sc.set("target7", (m128 && (path == 2 || path == 8 || path == 0 || path == 9 || path == 10) && rng.bool()) as i64);
                 // partial fast load: window (0x4000 or, 128K, 0xC000 with bank 5/7 paged), offset and length
                 sc.set("fl_c000", (m128 && rng.bool()) as i64);
                 let (r1, r2, r3) = (rng.range(0, 0x1AFF), rng.range(1, 6912), rng.range(1, 300));
@@ -223,12 +223,12 @@ impl Property for C08 {
         idle_cpu(&mut e);
         match sc.get("kind") {
             0 => {
-                let path = sc.get("path").clamp(0, 9) as usize;
+                let path = sc.get("path").clamp(0, 10) as usize;
                 let pname = PATHS[path];
                 if !m128 && (path == 2 || path == 8) {
                     return Ok(());
                 }
-                let target7 = m128 && sc.get("target7") != 0 && (path == 0 || path == 2 || path == 8 || path == 9);
+                let target7 = m128 && sc.get("target7") != 0 && (path == 0 || path == 2 || path == 8 || path == 9 || path == 10);
                 let chunk = sc.get("chunk").max(0) as usize;
                 let plan = AssetPlan { max_chunk: chunk, ..Default::default() };
                 // other screen bank gets different recognisable content
@@ -313,6 +313,46 @@ impl Property for C08 {
                         let r = if path == 5 { e.load_snapshot(Snapshot::Sna(a)) } else { e.load_snapshot(Snapshot::Szx(a)) };
                         r.map_err(|x| Fail::new("C08.load_snapshot", &format!("path={}", pname), format!("loading a well-formed snapshot failed: {:?}", x)))?;
                     }
+                    10 => {
+                        // 16-bit stores and stack pushes by the CPU (LD (nn),HL / LD (nn),BC / LD (nn),IX / PUSH)
+                        // at seeded display-file offsets, through 0x4000 or 0xC000 with a screen bank paged
+                        // there, on top of a known picture
+                        ctx.probe("path_cpu_words");
+                        let via_c000 = m128 && sc.get("fl_c000") != 0;
+                        let bank: u8 = if via_c000 { page_at_c000 } else { 5 };
+                        e.verif_ram_page(phys_screen_page(m128, bank == 7))[..6912].copy_from_slice(&scr);
+                        e.verif_refresh_screen();
+                        if via_c000 {
+                            e.verif_bus().write_io(0x7FFD, page_at_c000);
+                        }
+                        let base: u16 = if via_c000 { 0xC000 } else { 0x4000 };
+                        let mut prog: Vec<u8> = vec![0xF3];
+                        for _ in 0..400 {
+                            let off = rng.below(6911) as u16;
+                            let a = base + off;
+                            let w = rng.u16();
+                            match rng.below(4) {
+                                0 => prog.extend_from_slice(&[0x21, w as u8, (w >> 8) as u8, 0x22, a as u8, (a >> 8) as u8]),
+                                1 => prog.extend_from_slice(&[0x01, w as u8, (w >> 8) as u8, 0xED, 0x43, a as u8, (a >> 8) as u8]),
+                                2 => prog.extend_from_slice(&[0xDD, 0x21, w as u8, (w >> 8) as u8, 0xDD, 0x22, a as u8, (a >> 8) as u8]),
+                                _ => {
+                                    let sp = a + 2;
+                                    prog.extend_from_slice(&[0x31, sp as u8, (sp >> 8) as u8, 0x11, w as u8, (w >> 8) as u8, 0xD5]);
+                                }
+                            }
+                        }
+                        prog.extend_from_slice(&[0x31, 0xF0, 0x8F, 0x18, 0xFE]); // LD SP,8FF0 ; JR $
+                        write_mem(&mut e, 0x9000, &prog);
+                        let mut st = cpu_state(&mut e);
+                        st.pc = 0x9000;
+                        st.iff1 = false;
+                        st.iff2 = false;
+                        st.to_impl(e.verif_cpu());
+                        run_frames(&mut e, 2).map_err(|x| Fail::new("C08.run", "", x))?;
+                        if via_c000 {
+                            e.verif_bus().write_io(0x7FFD, 0);
+                        }
+                    }
                     9 => {
                         // tape fast-load of a block that covers only a part of the display file (possibly
                         // starting below it), through 0x4000 or through 0xC000 with a screen bank paged there
@@ -374,7 +414,7 @@ impl Property for C08 {
                         ctx.probe("shadow_displayed");
                     }
                 }
-                if path != 1 && path != 2 && path != 7 && path != 9 {
+                if path != 1 && path != 2 && path != 7 && path != 9 && path != 10 {
                     idle_cpu_keep(&mut e);
                 }
                 // quiet frames
